@@ -79,7 +79,24 @@ def observe(classes: list[dict], postponed: bool, lab: Labels) -> list[Any]:
                 child = [f.name for f in cls.get_child_fields()]
                 props = [f.name for f in cls.get_property_fields(False, False, False)]
             except InvalidFieldAnnotations as e:
-                out.append(("rejected", sorted({n for n, _, _ in e.invalid_annotations}), "first-use"))
+                names = sorted({n for n, _, _ in e.invalid_annotations})
+                # the verdict must not change on a second attempt (a failed first use must not leave
+                # the class half-classified)
+                for attempt, fn in (("get_child_fields", cls.get_child_fields),
+                                    ("get_property_fields", lambda: list(cls.get_property_fields(False, False, False))),
+                                    ("instantiation", cls)):
+                    try:
+                        fn()
+                    except InvalidFieldAnnotations as e2:
+                        require(sorted({n for n, _, _ in e2.invalid_annotations}) == names, "rejection-changes-on-retry",
+                                f"{c['name']} {attempt}")
+                    except Exception as e2:  # noqa: BLE001
+                        require(False, "unexpected-exception-on-retry", f"{c['name']} {attempt}: {short_tb(e2)}")
+                    else:
+                        require(False, "rejected-class-accepted-on-retry",
+                                f"{'postponed' if postponed else 'plain'} {c['name']}: {attempt} succeeded after the first use "
+                                f"had been rejected for {names}\n{_subject_src(mod.src)}")
+                out.append(("rejected", names, "first-use"))
                 continue
             except Exception as e:  # noqa: BLE001
                 require(False, "unexpected-exception-at-first-use",
